@@ -569,10 +569,15 @@ func (d *Directory) handleModify(t TestingT) func(w *gldap.ResponseWriter, r *gl
 				}
 			case gldap.ReplaceAttribute:
 				if foundAttr != nil {
-					// we're updating what the ptr points at, so disable lint of
-					// unused var
-					//nolint:staticcheck
-					foundAttr = gldap.NewEntryAttribute(chg.Modification.Type, chg.Modification.Vals)
+					// the modify request's values are ber encoded
+					vals, err := gldap.ConvertString(chg.Modification.Vals...)
+					if err != nil {
+						d.logger.Error("unable to convert replace values", "op", op, "err", err)
+						res.SetResultCode(gldap.ResultOperationsError)
+						res.SetDiagnosticMessage(fmt.Sprintf("invalid values for attribute %s", chg.Modification.Type))
+						return
+					}
+					e.Attributes[foundAt] = gldap.NewEntryAttribute(chg.Modification.Type, vals)
 				}
 			}
 		}
